@@ -6,6 +6,8 @@ import sys
 
 sys.path.insert(0, os.path.dirname(os.path.abspath(__file__)))
 sys.path.insert(0, os.path.join(os.path.dirname(os.path.abspath(__file__)), "..", "tools"))
+import codec  # noqa: E402
+import common  # noqa: E402
 import cppcommon as C  # noqa: E402
 import schema as S  # noqa: E402
 from checklib import Check  # noqa: E402
@@ -19,28 +21,6 @@ def has_float(t):
     return False
 
 
-def double_quoted_bytes(t, v):
-    """some bytes value's Python repr uses double quotes (contains ' but not ")"""
-    if t[0] == "struct":
-        for (_, k, ft), x in zip(t[2], v[1]):
-            if k[0] in ("fixed", "bound", "limited", "greedy"):
-                if ft[0] == "byte":
-                    bs = x[1]
-                    if 39 in bs and 34 not in bs:
-                        return True
-                else:
-                    if any(double_quoted_bytes(ft, e) for e in x[1]):
-                        return True
-            elif k[0] == "opt":
-                if x is not None and double_quoted_bytes(ft, x[1]):
-                    return True
-            elif double_quoted_bytes(ft, x):
-                return True
-    elif t[0] == "union":
-        return double_quoted_bytes(t[2][v[1]][2], v[2])
-    return False
-
-
 def main():
     chk = Check("C18")
     chk.build()
@@ -49,7 +29,9 @@ def main():
     cases, jobs, pyres, records, tail_ok, errors = C.canonical_ops(
         chk, 200 if quick else 600, 6 if quick else 2, 3 if quick else 4, rng, want=("encode", "str"), k=2)
     C.report_build_errors(chk, cases, errors)
-    skipped = {"float": 0, "double_quoted": 0, "greedy_tail": 0}
+    skipped = {"float": 0, "greedy_tail": 0}
+    entries = []          # (i, vi, who, text)
+    seen_py = set()
     for i, vi, e, h, o in records:
         if e != "little" or vi < 0:
             continue
@@ -58,32 +40,69 @@ def main():
         if has_float(t):
             skipped["float"] += 1
             continue
-        if double_quoted_bytes(t, v):
-            skipped["double_quoted"] += 1
-            continue
+        py = pyres[i]["values"][vi].get("str")
+        if (i, vi) not in seen_py:
+            # the Python text of every value, whether or not the C++ side can hold it
+            seen_py.add((i, vi))
+            if py is None or py.startswith("EXC:"):
+                chk.violation("str-%d-%d" % (i, vi), C.case_of(cases, jobs, i, vi, {"kind": "Python str() raised", "python": py}))
+            else:
+                entries.append((i, vi, 0, py))
         if not tail_ok.get((i, vi)):
             skipped["greedy_tail"] += 1
             continue
         chk.count()
         chk.seen_class(S.shape_class(t, v), S.nontrivial(t, v))
-        py = pyres[i]["values"][vi].get("str")
         if not o.get("ok") or "print" not in o:
             continue      # C03's question
-        if py is None or py.startswith("EXC:"):
-            chk.violation("str-%d-%d" % (i, vi), C.case_of(cases, jobs, i, vi, {"kind": "Python str() raised", "python": py}))
-        elif o["print"] != py:
+        entries.append((i, vi, 1, o["print"]))
+        if py is not None and not py.startswith("EXC:") and o["print"] != py:
             chk.violation("print-%d-%d" % (i, vi), C.case_of(cases, jobs, i, vi, {
                 "kind": "Python str() and C++ print() differ", "python": py, "cpp": o["print"], "canonical": h}))
+    # every text is compared inside Coq with the model of the implementation that produced it (the theorems' tie)
+    # and with the specified text (the property's oracle)
+    texts = {(i, vi, who): txt for i, vi, who, txt in entries}
+
+    def ex(en, names):
+        i, vi, who, txt = en
+        t = cases[i][2]
+        tt = S.to_coq(t, names)
+        nn = S.names_coq(t, names)
+        vv = S.value_coq(S.value_from_json(jobs[i]["values"][vi]))
+        return "(%d, %d, text_case %d %s %s %s %s)" % (i, 2 * vi + who, who, tt, nn, vv, S.text_coq(txt))
+
+    work = common.scratch("text")
+    files = codec.write_case_files(work, "text", entries, ex, chunk=200)
+    bad = codec.eval_case_files(files)
+    chk.coverage["texts_compared_in_coq"] = {"python": sum(1 for en in entries if en[2] == 0),
+                                             "cpp": sum(1 for en in entries if en[2] == 1)}
+    for i, code, r in bad:
+        vi, who = code // 2, code % 2
+        flags = dict(zip(("names_ok", "wt", "no_float", "model_eq_observed", "spec_eq_observed"), r[1:6]))
+        spec_text = bytes(r[6:]).decode("latin-1")
+        desc = C.case_of(cases, jobs, i, vi, {
+            "implementation": "Python str()" if who == 0 else "C++ print()", "observed": texts[(i, vi, who)],
+            "specified": spec_text, "flags": flags})
+        if not (flags["names_ok"] and flags["wt"] and flags["no_float"]):
+            desc["kind"] = "harness: generated case outside the theorem's hypotheses"
+            chk.violation("text-hyp-%d-%d" % (i, code), desc, match=False)
+        elif not flags["spec_eq_observed"]:
+            desc["kind"] = "%s differs from the specified text (spec/Text.v text_of)" % desc["implementation"]
+            chk.violation("text-%d-%d" % (i, code), desc)
+        else:
+            desc["kind"] = "broken correspondence: model/Print.v does not reproduce %s" % desc["implementation"]
+            chk.violation("text-model-%d-%d" % (i, code), desc, "no-failing-input-found", match=False)
     chk.coverage["skipped_out_of_scope"] = skipped
-    chk.coverage["rule"] = ("schemas/values as in C03 without floating point members; values with a bytes field whose Python repr uses "
-                            "double quotes are out of the property's scope and skipped; the same value is held by a Python message "
-                            "(str()) and by the C++ object decoded from its canonical bytes (print()); texts must be byte-identical "
-                            "(this also catches one field changing how later ones are rendered).")
+    chk.coverage["rule"] = ("schemas/values as in C03 without floating point members; the same value is held by a Python message "
+                            "(str()) and by the C++ object decoded from its canonical bytes (print()); the two texts must be "
+                            "byte-identical, and each is compared inside Coq (CheckLib.text_case) with the model of its "
+                            "implementation (py_str / cpp_text: the tie of the theorems of props/C18.v) and with the specified "
+                            "text text_of (the oracle); this also catches one field changing how later ones are rendered.")
     for i, vi, e, h, o in records[:400]:
         if "print" in o and len(o["print"]) > 40 and e == "little":
             chk.sample({"schema": S.to_prophy(cases[i][2]), "text": o["print"]})
             break
-    return chk.finish(level="exploration")
+    return chk.finish(level="proof")
 
 
 if __name__ == "__main__":
